@@ -1180,8 +1180,9 @@ def run_cases(ctx, cases, rebuild=None):
             ctx.drift(c.family, c.line[:500], str(c.impl)[:200], str(ans)[:200])
             continue
         bad += 1
-        if bad <= 3 and rebuild is not None:
-            small = shrink(ctx, c, rebuild)
+        own = getattr(c, 'rebuild', None)
+        if bad <= 3 and own is not False and (own or rebuild) is not None:
+            small = shrink(ctx, c, own or rebuild)
             if small is not c:
                 c, v = small, small._verdict
         ctx.violation('%s %s: %s %s with %s' % (c.family, c.what, _safe_str(c.tree), v[1],
@@ -1397,11 +1398,23 @@ def mk_roundtrip(tree, env, extra):
             if via == 'json':
                 data = json.loads(json.dumps(data))
             e2 = Expression(data)
-        return e2.evaluate_in_scope(scope_args(rest if derive == 'subst' else env))
+        scope = scope_args(rest if derive == 'subst' else env)
+        if then == 'exact':
+            return e2.evaluate_with_exact_rationals(scope)
+        if then == 'arith-exact':
+            # the loaded expression in arithmetic with other exact operands
+            return (e2 * int(factor) + ES(to_str(addend))).evaluate_with_exact_rationals(scope)
+        return e2.evaluate_in_scope(scope)
+    then = extra.get('then', 'numeric')
     result_tree = tree
     if derive == 'arith' and first:
         result_tree = ('div', ('mul', tree, var(first[0])), var(first[0]))
-    c = Case('roundtrip', result_tree, env, None, True, what='serialisation round trip (%s, %s)' % (via, derive),
+    if then == 'arith-exact':
+        factor = F(extra['factor'])
+        addend = tree_from_json(extra['addend'])
+        result_tree = ('add', ('mul', result_tree, lit(factor)), addend)
+    floats = not (then in ('exact', 'arith-exact') and not env_uses_floats(env))
+    c = Case('roundtrip', result_tree, env, None, floats, what='serialisation round trip (%s, %s, then %s)' % (via, derive, then),
              extra=dict(extra, kind='roundtrip', symbolic=first if derive == 'subst' else []))
     c.impl = outcome(run)
     return c
@@ -2005,6 +2018,24 @@ def fam_roundtrip(ctx, n):
         cases.append(mk_roundtrip(tree, env, {'via': rng.choice(['plain', 'json', 'json', 'pickle']), 'derive': derive, 'first': first,
                                               'build': 'sympy' if rng.random() < 0.2 else 'string'}))
         ctx.count('roundtrip:' + derive)
+    # symbol-free expressions with a non-dyadic rational value (written so, or the result of a complete substitution of
+    # integers / TimeTypes) must come back *exact*: evaluated in exact-rational mode and in arithmetic with exact operands
+    for i in range(max(n // 2, 80)):
+        closed = rng.random() < 0.5
+        cfg = Cfg(numbers='rational', lit_styles=('int', 'frac'), index=False, bindex=False, sums=rng.random() < 0.15, ite=rng.random() < 0.15,
+                  scalars=[] if closed else ['a', 'b'], ints=[] if closed else ['n'], arrays=[])
+        third = lit(F(rng.choice([1, 2, 7, 22, -5, 1, 10]), rng.choice([3, 3, 7, 9, 6, 11, 13])))
+        tree = third if rng.random() < 0.25 else (rng.choice(['add', 'sub', 'mul']), third, gen_num(rng, cfg, rng.randint(0, ctx.n(2, 3))))
+        env = gen_env(rng, tree, cfg, ('tt', 'int'))
+        then = rng.choice(['exact', 'exact', 'arith-exact'])
+        ex = {'via': rng.choice(['plain', 'json', 'pickle']), 'derive': 'none' if not env else 'subst', 'first': list(env),
+              'build': 'sympy' if rng.random() < 0.2 else 'string', 'then': then}
+        if then == 'arith-exact':
+            ex['factor'] = str(rng.choice([3, 7, 2, -3, 9]))
+            ex['addend'] = tree_to_json(lit(F(rng.randrange(-9, 10), rng.choice([1, 2, 3, 5]))))
+        cases.append(mk_roundtrip(tree, env, ex))
+        cases[-1].rebuild = (lambda t, e, ex=ex: mk_roundtrip(t, {x: kv for x, kv in e.items()}, dict(ex, first=list(e)))) if then == 'exact' else False
+        ctx.count('roundtrip:constant-rational:' + then)
     return run_cases(ctx, cases, rebuild=lambda t, e: mk_roundtrip(t, e, cases[0].extra))
 
 
@@ -2425,6 +2456,8 @@ def rebuild_case(rec):
         return mk_arith(tree_from_json(rec['tree_in']), env, rec)
     if kind == 'roundtrip':
         t = tree_from_json(rec['tree'])
+        if rec.get('then') == 'arith-exact':
+            t = t[1][1]          # recorded tree is tree * factor + addend
         if rec.get('derive') == 'arith' and rec.get('first'):
             t = t[1][1]          # recorded tree is (tree * x) / x
         return mk_roundtrip(t, env, rec)
